@@ -277,6 +277,7 @@ type respPlan struct {
 	av      string // ammo variant: "" | meta | emptymeta | emptydefault | body
 	avail   string // availability history: the target goes away like this (avreset | avhole) and comes back; staged start-up
 	tls     bool   // handshake-level letter: the run goes to the TLS fault target, keep-alive off
+	h2raw   bool   // the run goes to the frame-level HTTP/2 target
 	gz      bool   // the client decompresses (disable-compression: false)
 	tunnel  bool   // the letter is what the target does to the connect gun's CONNECT
 	sub     int    // n+1: the enumerated substr bounds against a header value of n bytes (one instance); 0: not such a run
@@ -456,6 +457,26 @@ func planAll(mixes int, rnd *rand.Rand, h2 bool) []respPlan {
 			}
 			plans = append(plans, respPlan{gun: g, posts: p, letters: repeat("nonh2", shots), fatal: true})
 		}
+		// HTTP/2 frame level: GOAWAY, RST_STREAM (instead of / in the middle of a response), a frame on stream 0, a block
+		// that is not HPACK, a flood of SETTINGS and PINGs - and mixtures of them with well-formed responses on the
+		// same connections (the next shot of the instance must be unaffected)
+		for _, g := range []string{"http2", "http2/scenario"} {
+			p := map[string]string{"http2": "none", "http2/scenario": "all"}[g]
+			for _, l := range []string{"h2goaway", "h2rst", "h2rstmid", "h2badframe", "h2hpackbad", "h2flood", "s200", "s500"} {
+				plans = append(plans, respPlan{gun: g, posts: p, letters: repeat(l, shots), h2raw: true})
+				if l == "h2rst" || l == "h2rstmid" || l == "h2goaway" {
+					plans = append(plans, respPlan{gun: g, posts: p, letters: repeat(l, shots), h2raw: true, debug: true})
+				}
+			}
+			mixH2 := []string{"s200", "s404", "s500", "shorthdr", "notjson", "h2rst", "h2rstmid", "h2goaway", "h2hpackbad"}
+			for m := 0; m < 1+mixes/3; m++ {
+				letters := make([]string, shots)
+				for i := range letters {
+					letters[i] = mixH2[rnd.Intn(len(mixH2))]
+				}
+				plans = append(plans, respPlan{gun: g, posts: p, letters: letters, h2raw: true, mix: true})
+			}
+		}
 		// TLS handshake level: a target that does speak HTTP/2 but fails a share of the handshakes
 		for _, g := range []string{"https", "http2", "http2/scenario"} {
 			p := map[string]string{"https": "none", "http2": "none", "http2/scenario": "all"}[g]
@@ -499,13 +520,14 @@ func planAll(mixes int, rnd *rand.Rand, h2 bool) []respPlan {
 }
 
 type respTargets struct {
-	raw  *scentarget.RawTarget
-	slow *scentarget.RawTarget
-	grpc *scentarget.GrpcTarget
-	h2   *httptest.Server
-	h1s  *httptest.Server
-	tls  *scentarget.TLSTarget
-	dead string
+	raw   *scentarget.RawTarget
+	slow  *scentarget.RawTarget
+	grpc  *scentarget.GrpcTarget
+	h2    *httptest.Server
+	h1s   *httptest.Server
+	tls   *scentarget.TLSTarget
+	h2raw *scentarget.H2RawTarget
+	dead  string
 }
 
 func h2Handler(w http.ResponseWriter, r *http.Request) {
@@ -543,6 +565,7 @@ func newTargets(h2 bool) *respTargets {
 		t.h1s.TLS = &tls.Config{NextProtos: []string{"http/1.1"}}
 		t.h1s.StartTLS()
 		t.tls = scentarget.NewTLSTarget()
+		t.h2raw = scentarget.NewH2RawTarget()
 	}
 	return t
 }
@@ -555,6 +578,7 @@ func (t *respTargets) close() {
 		t.h2.Close()
 		t.h1s.Close()
 		t.tls.Close()
+		t.h2raw.Close()
 	}
 }
 
@@ -613,6 +637,9 @@ func runPlan(idx int, p respPlan, t *respTargets, root string) respRun {
 			target = strings.TrimPrefix(t.h2.URL, "https://")
 			if p.fatal {
 				target = strings.TrimPrefix(t.h1s.URL, "https://")
+			}
+			if p.h2raw {
+				target = t.h2raw.Addr()
 			}
 			extra += "      ssl: true\n      tls-handshake-timeout: 60s\n"
 			seen = func() int64 { return 0 }
